@@ -102,7 +102,7 @@ func TestC13Snapshot(t *testing.T) {
 		defer mc.Close()
 		defer mc.Guard(t)
 		defer column.SetVerifHook(nil)
-		cfg := TxnCfg{Prop: "C13", MaxSteps: 4, Deletes: true, Inserts: true, Merges: true, NoStoreOnDel: KFActive("f11-store-and-delete-same-txn")}
+		cfg := TxnCfg{Prop: "C13", MaxSteps: 4, Deletes: true, Inserts: true, Merges: true, NoStoreOnDel: KFActive("f11-store-and-delete-same-txn"), NoOpAfterLenMerge: KFActive("f15-difflen-merge-reorder")}
 		// layout: 0..3 blocks, thinned so that the file stays small
 		switch rapid.IntRange(0, 4).Draw(t, "layout") {
 		case 0:
